@@ -5,13 +5,14 @@ import common as C
 import gen as G
 import codec, prune, wrap
 
-MODEL_TARGETS = ["model/De.vo", "spec/Denote.vo", "spec/Encoding.vo"]
+MODEL_TARGETS = ["model/De.vo", "spec/Denote.vo", "spec/DenoteOpt.vo", "spec/Encoding.vo"]
 COQ_TARGETS = ["props/C03.vo", "proofs/DeDispatchTie.vo"]
 THEOREMS = [("C03", ["C03_complete", "C03_long", "C03_long_is_crate", "C03_unbounded_refuted", "C03_sound", "C03_malformed_rejected", "C03_boolean_byte",
                      "C03_invalid_utf8", "C03_union_index", "C03_enum_index", "C03_negative_length", "C03_premature_end", "C03_premature_end_varint", "C03_typed_sound", "C03_typed_sound_datum"]),
             ("DeDispatchTie", ["tie_de_any", "tie_de_ignored", "tie_de_forward", "de_any_is_generated", "de_ignored_is_generated", "de_is_generated"])]
 PROOF_FILES = ["proofs/DeProofs.v", "proofs/VarintProofs.v", "proofs/DeSoundBase.v", "proofs/DeSoundMain.v", "proofs/DeSoundReject.v", "proofs/DeSoundProofs.v", "proofs/DeSafetyProofs.v", "proofs/DeSoundTyped.v", "props/C03.v", "proofs/DeDispatchTie.v"]
 TRUSTED_BASE = [
+    "index malformations (Python): the leading varint of the union / enum value inside a specification-produced encoding is replaced (offset known from the wrapper: root, array of one, map of one, record after an int field; asserted against the specification's encoding of the inner value); that an index outside the schema must be rejected is the property's statement, the model De.v is compared on the same lines; targets from spec/Denote.v / DenoteOpt.v",
     "dispatch tie: translators/gen_dispatch.py (+ rustmatch.py) reads the arms of every deserialize_* method of DatumDeserializer into gen/GenDeDispatch.v; proofs/DeDispatchTie.v proves that model/De.v's de is the interpretation of those regenerated tables (the meaning of each action symbol, act_sem, is hand-written there)",
     "Coq 8.16.1 kernel; no axioms (Print Assumptions: closed)",
     "spec/{AvroValue,Encoding,Denote}.v written from the Avro specification (values, conformance, every legal block layout, expected callbacks); extracted as the oracle",
@@ -53,6 +54,93 @@ def targeted(rng):
     # (the byte size after a negative block count is read and discarded when the items are decoded one by one, as the
     #  reference implementations do; it is only used -- and then checked against the input -- when skipping)
     return out
+
+def index_positions(rng, quick):
+    """Schemas whose root is a union or an enum (nullable unions [null,T] / [T,null] over every leaf kind and over
+    record / array, unions of two non-null branches, of one and of three branches, enums of 1..100 symbols) with a
+    conforming value, each embedded at the root, in an array, in a map, and between two record fields.
+    -> [(inner nodes, inner value, wrapped nodes, wrapped value, offset of the index in the wrapped encoding, #branches)]"""
+    import directed as D
+    N = G.Node
+    inner = []
+    leaves = [ns for lab, ns in G.leaf_kind_schemas() if not lab.startswith("unknown-logical") and lab != "null"]
+    extra = [[N("record", name="ns.Rec", fields=[("a", 1), ("b", 2)]), N("int"), N("string")], [N("array", items=1), N("long")],
+             [N("map", values=1), N("string")]]
+    for ns in leaves + extra:
+        for null_first in (True, False):
+            body = wrap.shift(ns, 2)
+            inner.append([N("union", variants=[1, 2] if null_first else [2, 1]), N("null")] + body)
+    for _ in range(30 if quick else 600):
+        inner.append(D.plain_union_case(rng, None, wrapper="root"))
+    for n in (1, 2, 3, 4, 63, 64, 65, 100):
+        inner.append([N("enum", name="ns.En%d" % n, symbols=["S%d" % i for i in range(n)])])
+    out = []
+    for nodes in inner:
+        vg = G.ValueGen(rng, nodes, layouts=False)
+        nb = len(nodes[0].variants) if nodes[0].t == "union" else len(nodes[0].symbols)
+        vals = set()
+        for _ in range(6):
+            v = vg.gen(0)
+            if v is not None:
+                vals.add(v)
+            if len(vals) >= min(nb, 2):
+                break
+        for v in sorted(vals):
+            for w in ("root", "array", "map", "record"):
+                if w == "root":
+                    out.append((nodes, v, nodes, v, 0, nb))
+                elif w == "array":
+                    out.append((nodes, v, [N("array", items=1)] + wrap.shift(nodes, 1), "(array (blk 0 %s))" % v, 1, nb))
+                elif w == "map":
+                    key = G.rand_str(rng, 4).encode()
+                    out.append((nodes, v, [N("map", values=1)] + wrap.shift(nodes, 1), "(map (blk 0 (%s %s)))" % (C.hx(key), v),
+                                1 + len(G.varint(len(key))) + len(key), nb))
+                else:
+                    h = G.rand_int(rng, -2**31, 2**31 - 1)
+                    k = len(nodes)
+                    wn = [N("record", name="W__", fields=[("head", k + 1), ("u", 1), ("tail", k + 2)])] + wrap.shift(nodes, 1) + [N("int"), N("string")]
+                    out.append((nodes, v, wn, "(record (int %d) %s (string %s))" % (h, v, C.hx(G.rand_str(rng))), len(G.varint(h)), nb))
+    return out
+
+def index_malformations(rng, quick):
+    """single-point malformation of the union / enum index of a valid encoding: the index is replaced by one that is
+    outside the schema (n, n+1, ..., negative, huge), everything else -- the payload of the branch that was selected --
+    is kept. Decoded under the dynamic target, the ordinary Rust types of the schema (Option<T> for [null,T], enum by
+    branch name, Option<enum> -- spec/Denote.v, DenoteOpt.v) and targets that take the position as Option<any> /
+    Option<ignored> / any / IgnoredAny (unions). -> [(line, kind)]; every one of them must be rejected"""
+    pos = index_positions(rng, quick)
+    sp_in = codec.spec_batch([(a, b) for a, b, *_ in pos])
+    sp_w = codec.spec_batch([(c, d) for _, _, c, d, *_ in pos])
+    out = []
+    for (nodes, v, wn, wv, off, nb), si, sw in zip(pos, sp_in, sp_w):
+        enc_in, enc = C.unhex(si["enc"]), C.unhex(sw["enc"])
+        assert enc[off:off + len(enc_in)] == enc_in, (sw["schema"], wv)
+        idx = int(C.parse_sx(v)[0][1])
+        old = G.varint(idx)
+        assert enc_in.startswith(old)
+        is_union = nodes[0].t == "union"
+        tgs = ["any", sw["ttarget"]]
+        if sw["otarget"] != sw["ttarget"]:
+            tgs.append(sw["otarget"])
+        alts = ["(option any)", "any", "i64", "str"] + (["(option ignored)", "ignored"] if is_union else [])
+        if is_union:
+            # every branch taken as a unit variant (payload ignored)
+            alts.append("(enum x55%s)" % "".join(" (unit %s)" % C.hx(present_type_name(nodes, k)) for k in nodes[0].variants))
+        for alt in alts:
+            if si["ttarget"] in sw["ttarget"]:
+                tgs.append(sw["ttarget"].replace(si["ttarget"], alt, 1))
+        ds = [nb, nb + 1, nb + 62, 100, -1, -2, 2**31, 2**62, 2**63 - 1, -2**63]
+        for d in (ds if not quick else [nb, nb + 1] + rng.sample(ds[2:], 3)):
+            bad = enc[:off] + G.varint(d) + enc[off + len(old):]
+            for tg in (tgs if not quick else tgs[:3] + rng.sample(tgs[3:], min(2, len(tgs) - 3))):
+                out.append(("de %s %s %s %s" % (sw["schema"], tg, C.hx(bad), rng.choice(["slice", "slice", "(chunks 1)", "(chunks 3)"])),
+                            "malformed: %s index %d outside the schema (%d %s)" % ("union" if is_union else "enum", d, nb,
+                                                                                   "branches" if is_union else "symbols")))
+    return out
+
+def present_type_name(nodes, k):
+    from present import type_name
+    return type_name(nodes, k)
 
 def run(ctx):
     rng = random.Random(ctx["seed"] * 1000003 + 3)
@@ -126,6 +214,9 @@ def run(ctx):
         for mode in ("slice", "(chunks 1)"):
             lines.append("de %s %s %s %s" % (G.schema_sx(nodes), rng.choice(["any", "any", "str", "i64"]) if "UTF" not in why else rng.choice(["any", "str", "string"]), C.hx(b), mode))
             meta.append(("malformed: " + why, "err", None))
+    for line, kind in index_malformations(rng, ctx["tier"] == "quick"):
+        lines.append(line)
+        meta.append((kind, "err", None))
     impl, model = codec.both(lines)
     violations, diffs, samples, distinct = [], [], [], set()
     from collections import Counter
@@ -151,5 +242,9 @@ def run(ctx):
                     "the specification's typed value with exactly those parts removed); every leaf kind (primitives, every logical type over "
                     "each base, fixed and decimal-over-fixed sizes, enums) ignored in every position followed by a field that is read; strict prefixes (premature end) and targeted malformations (boolean bytes 2..255, 12 ill-formed UTF-8 "
                     "sequences in strings/keys/uuids, union and enum indices outside the schema incl. negative and huge, negative lengths, "
-                    "over-long varints, oversized decimals) must be rejected; model vs crate on everything",
+                    "over-long varints, oversized decimals) must be rejected; single-point malformation of the union / enum INDEX of valid "
+                    "encodings (nullable unions over every leaf kind, unions of 1..3 non-null branches, enums of 1..100 symbols; at the root, in "
+                    "arrays, maps, record fields; index replaced by n, n+1, negative, huge) decoded under the dynamic target, the ordinary Rust "
+                    "types (Option<T>, enum by branch name, Option<enum>) and Option<any>/IgnoredAny/unit-variant targets: must be rejected; "
+                    "model vs crate on everything",
             "samples": samples, "violations": violations, "model_diffs": diffs, "distribution": dict(dist), "exhaustive": False}
